@@ -44,7 +44,7 @@ var c26Assumptions = []string{
 	"while finding " + c26FindPrefixOnPK + " is listed open, secondary indexes get no prefix length on primary-key columns (counted as excluded_known); the pinned sub-test reports it",
 	"a case in which the memory engine rejects an INSERT of distinct composite keys with 'duplicate primary key given' (dolt accepts it) is skipped (counted as excluded_known, class reference_rejected_insert)",
 	"a secondary index the memory engine fails to build is dropped from dolt as well (counted as excluded_known, class reference_rejected_index)",
-	"a query on which the reference engine's connection dies (the memory engine panicked) is skipped and counted as excluded_known (class reference_engine_crashed)",
+	"a query on which the reference engine's connection dies (the memory engine panicked) is skipped and counted as excluded_known (class reference_engine_crashed); when dolt's connection dies on the same query as well (a panic in go-mysql-server's shared analyzer, seen for `varbinarycol = x AND varbinarycol IN (...)`) both are reopened (class both_engines_crashed)",
 	"while finding " + c26FindPrefixOverlap + " is listed open, a disagreement (no LIMIT) where dolt returns exactly the reference rows but some of them several times, for a query over a table with a prefix index and an index scan in dolt's plan, is attributed to it (counted as excluded_known); the pinned sub-test reports it",
 	"while finding " + c26FindLeftMerge + " is listed open, a disagreement whose dolt plan contains a LeftOuterMergeJoin and where dolt returns no more rows than the reference is attributed to it (counted as excluded_known); the pinned sub-test reports it",
 	"while finding " + c26FindKeylessCount + " is listed open, `SELECT COUNT(col) FROM <keyless table>` is not generated (counted as excluded_known); the pinned sub-test reports it",
@@ -81,6 +81,7 @@ type qCase struct {
 	d       *vsql.Session
 	m       *qConn
 	mem     *qMem
+	srv     *vsql.Server
 	mCur    string
 	tables  []*qTable
 	commits []qCommit
@@ -146,7 +147,14 @@ func (c *qCase) commit(madmin *qConn) {
 			if j > len(rows) {
 				j = len(rows)
 			}
-			c.m.MustExec(c.rt, qInsertSQL(t, rows[i:j]))
+			if err := c.m.Exec(qInsertSQL(t, rows[i:j])); err != nil {
+				if strings.Contains(err.Error(), "duplicate primary key given") {
+					c.rec.Excluded(1)
+					c.rec.Class("reference_rejected_insert", 1)
+					c.rt.Skip("memory engine rejected an INSERT of distinct keys")
+				}
+				c.rt.Fatalf("HARNESS/memory engine rejected a snapshot INSERT into %s: %v", t.Name, err)
+			}
 		}
 		// the model must describe what the head reference database holds, or every AS OF
 		// comparison below would blame dolt for a harness mistake
@@ -587,10 +595,22 @@ func (c *qCase) runQuery(q qQuery) {
 		descRev = fmt.Sprintf("<hash of c%d>", target)
 	}
 	desc := c.sig + " :: " + qRender(q.SQL, mode, "db", descRev)
-	if merr != nil && (strings.Contains(merr.Error(), "invalid connection") || strings.Contains(merr.Error(), "bad connection") || strings.Contains(merr.Error(), "EOF")) {
-		// the memory engine panicked and dropped the connection: nothing to compare with
+	connDied := func(err error) bool {
+		return err != nil && (strings.Contains(err.Error(), "invalid connection") || strings.Contains(err.Error(), "bad connection") || strings.Contains(err.Error(), "EOF"))
+	}
+	if connDied(merr) {
+		// the reference engine panicked and dropped the connection: nothing to compare with. When the
+		// panic is in go-mysql-server's shared analyzer (seen: `varbinarycol = x AND varbinarycol IN
+		// (...)`, "comparing uncomparable type []uint8" in costed_index_scan.go) dolt's connection dies
+		// the same way and is reopened too.
 		c.rec.Excluded(1)
-		c.rec.Class("reference_engine_crashed", 1)
+		if connDied(derr) {
+			c.rec.Class("both_engines_crashed", 1)
+			c.d.Close()
+			c.d = c.srv.Session(rt, "q", c.db)
+		} else {
+			c.rec.Class("reference_engine_crashed", 1)
+		}
 		c.m.Close()
 		c.m = c.mem.Conn(rt, "")
 		c.mCur = ""
@@ -910,7 +930,7 @@ func TestVerif_C26(t *testing.T) {
 		admin.MustExec(rt, "CREATE DATABASE "+db)
 		defer admin.Exec("DROP DATABASE " + db)
 		madmin.MustExec(rt, "CREATE DATABASE "+db)
-		c := &qCase{rt: rt, rec: rec, db: db, mem: mem}
+		c := &qCase{rt: rt, rec: rec, db: db, mem: mem, srv: srv}
 		defer func() {
 			for _, cm := range c.commits {
 				_ = madmin.Exec("DROP DATABASE `" + cm.MemDB + "`")
@@ -918,7 +938,7 @@ func TestVerif_C26(t *testing.T) {
 			_ = madmin.Exec("DROP DATABASE " + db)
 		}()
 		c.d = srv.Session(rt, "q", db)
-		defer c.d.Close()
+		defer func() { c.d.Close() }()
 		c.m = mem.Conn(rt, db)
 		c.mCur = db
 		defer func() { c.m.Close() }()
